@@ -678,8 +678,8 @@ __bits_image_fetch_general (pixman_iter_t  *iter,
 	{
 	    if (w != 0)
 	    {
-		x0 = ((uint64_t)x << 16) / w;
-		y0 = ((uint64_t)y << 16) / w;
+		x0 = ((pixman_fixed_48_16_t)x * pixman_fixed_1) / w;
+		y0 = ((pixman_fixed_48_16_t)y * pixman_fixed_1) / w;
 	    }
 	    else
 	    {
